@@ -171,3 +171,168 @@ Print Assumptions Tie_judge_same_book.
 Print Assumptions Tie_judge_same_book_except.
 Print Assumptions Tie_judge_update_sound.
 Print Assumptions Tie_judge_update_sound_reachable.
+
+(* ---- the judges of the CONCURRENT properties (Spec/ConcJudges.v; C03 re-uses agg_b): checker <=> Prop,
+   and property theorem => the checker accepts the observations of every run of Model/Conc.v
+   (Proofs/ConcJudgeProofs.v uses C12_every_prefix / C12_counters_bounded, C03_reachable,
+   C08_no_double_handout / C08_handout_is_initial / C08_trace_cell / C08_map_nodup_step and
+   C03_quiescent_aggregates by name). ---- *)
+From PL Require Import Model.Conc Spec.CovSpec Spec.ConcJudges Proofs.ConcJudgeProofs.
+From PL Require Spec.ConcSpec.
+
+(* C12 *)
+Theorem Tie_judge_range : forall rows,
+  range_b rows = true <->
+  forall sq sn cv ch cc, In ((sq, sn), (cv, ch, cc)) rows ->
+    cv <= sq /\ ch <= sq /\ cv + ch <= sq /\ cc <= sn.
+Proof. exact range_b_spelled. Qed.
+
+Theorem Tie_judge_range_named : forall rows, range_b rows = true <-> RangeOK rows.
+Proof. exact range_b_iff. Qed.
+
+(* the observations of a model run: the counters after every prefix of the schedule; any bounds that
+   are at least Supplied c0 / OrdersB c0 *)
+Theorem Tie_judge_range_sound : forall mf, I_cons mf ->
+  forall sched c0, ConcSpec.Inv c0 ->
+  forall bounds : list (N * N),
+    Forall (fun b => ConcSpec.Supplied c0 <= fst b /\ ConcSpec.OrdersB c0 <= snd b) bounds ->
+    range_b (combine bounds
+               (map (fun n => let s := cf_sh (fst (exec mf (firstn n sched) c0)) in
+                              (sh_cvis s, sh_chid s, sh_ccnt s))
+                    (seq 0 (S (length sched))))) = true.
+Proof. exact range_judge_sound. Qed.
+
+(* "supplied so far": what the calls still to begin will supply may be left out of the bound *)
+Theorem Tie_judge_range_sound_so_far : forall mf, I_cons mf ->
+  forall sched n c0, ConcSpec.Inv c0 ->
+  forall sq sn,
+    let c := fst (exec mf (firstn n sched) c0) in
+    ConcSpec.Supplied c0 -
+      ConcSpec.tsum (fun t => ConcSpec.todo_budget (sh_price (cf_sh c)) (th_todo t)) (cf_threads c) <= sq ->
+    ConcSpec.OrdersB c0 -
+      ConcSpec.tsum (fun t => ConcSpec.todo_bc (th_todo t)) (cf_threads c) <= sn ->
+    range_b [((sq, sn), (sh_cvis (cf_sh c), sh_chid (cf_sh c), sh_ccnt (cf_sh c)))] = true.
+Proof. exact range_judge_sound_so_far. Qed.
+
+(* C08 *)
+Theorem Tie_judge_handout : forall init tr,
+  handout_b init tr = true <->
+  (forall k t1 i o1 t2 j o2 t3,
+      tr = t1 ++ (i, ERemove k (Some o1)) :: t2 ++ (j, ERemove k (Some o2)) :: t3 -> inserts k t2) /\
+  (forall k t1 j o t2,
+      tr = t1 ++ (j, ERemove k (Some o)) :: t2 -> inserts k t1 \/ In k init).
+Proof. intros init tr. exact (handout_b_iff tr init). Qed.
+
+Theorem Tie_judge_handout_sound : forall mf sched c c' tr,
+  exec mf sched c = (c', tr) -> handout_b (ids (sh_map (cf_sh c))) tr = true.
+Proof. exact handout_judge_sound. Qed.
+
+Theorem Tie_judge_cells : forall m tr,
+  cells_b m tr = true <-> forall k, trace_ok k (lookup k m) tr.
+Proof. intros m tr. exact (cells_b_iff tr m). Qed.
+
+Theorem Tie_judge_final_cells : forall m tr fin,
+  final_cells_b m tr fin = true <-> forall k, lookup k fin = cell_after k (lookup k m) tr.
+Proof. exact final_cells_b_iff. Qed.
+
+Theorem Tie_judge_cells_subsumes_handout : forall m tr,
+  cells_b m tr = true -> handout_b (ids m) tr = true.
+Proof. exact cells_b_handout_b. Qed.
+
+Theorem Tie_judge_cells_sound : forall mf sched c c' tr,
+  exec mf sched c = (c', tr) ->
+  cells_b (sh_map (cf_sh c)) tr = true /\
+  forall fin, (forall k, lookup k fin = lookup k (sh_map (cf_sh c'))) ->
+    final_cells_b (sh_map (cf_sh c)) tr fin = true.
+Proof. exact cells_judge_sound. Qed.
+
+Theorem Tie_judge_cells_sound_listing : forall mf sched c c' tr fin,
+  exec mf sched c = (c', tr) ->
+  NoDup (ids (sh_map (cf_sh c))) ->
+  Permutation fin (sh_map (cf_sh c')) ->
+  final_cells_b (sh_map (cf_sh c)) tr fin = true.
+Proof. exact cells_judge_sound_listing. Qed.
+
+Theorem Tie_judge_drained : forall remaining after cv ch cc,
+  drained_b remaining after cv ch cc = true <->
+  (0 < remaining -> forall o, In o after -> vis o = 0) /\
+  cv = sumv after /\ ch = sumh after /\ cc = N.of_nat (length after).
+Proof. exact drained_b_iff. Qed.
+
+Theorem Tie_judge_drained_sound : forall mf, I_cons mf ->
+  forall l gen progs sched c tr fuel g qty taker l' g' r after,
+    ConcSpec.wf_progs l progs -> Covered (lq l) ->
+    exec mf sched (ConcSpec.init_config l gen progs) = (c, tr) ->
+    quiescent c = true ->
+    match_order mf fuel (level_of_config c) g qty taker = Some (l', g', r) ->
+    Permutation after (resting l') ->
+    drained_b (r_remaining r) after (cvis l') (chid l') (ccnt l') = true.
+Proof. exact drain_judge_sound. Qed.
+
+(* C03 *)
+Theorem Tie_judge_quiescent_agg_sound : forall mf, I_cons mf ->
+  forall sched c0, ConcSpec.Inv c0 ->
+  let c := fst (exec mf sched c0) in
+  quiescent c = true ->
+  forall listing, Permutation listing (sh_map (cf_sh c)) ->
+    agg_b (sh_cvis (cf_sh c)) (sh_chid (cf_sh c)) (sh_ccnt (cf_sh c)) listing = true.
+Proof. exact quiescent_agg_judge_sound. Qed.
+
+(* not vacuous: each judge rejects a wrong observation *)
+Example Tie_judge_range_rejects :
+  range_b [((30, 3), (19, 11, 3)); ((30, 3), (10, 0, 2))] = true /\
+  range_b [((30, 3), (19, 12, 3))] = false /\                       (* visible + hidden above the supply *)
+  range_b [((30, 3), (18446744073709551611, 0, 3))] = false /\       (* a wrapped counter: 2^64 - 5 *)
+  range_b [((30, 3), (10, 0, 2)); ((30, 3), (10, 0, 4))] = false.
+Proof. vm_compute. repeat split. Qed.
+
+Example Tie_judge_handout_rejects :
+  let a := Standard (mkCommon (Uuid 1) 100 Sell 1 Gtc) 5 in
+  let a' := Standard (mkCommon (Uuid 1) 100 Sell 1 Gtc) 2 in
+  handout_b [Uuid 1] [(0%nat, ERemove (Uuid 1) (Some a)); (1%nat, ERemove (Uuid 1) None);
+                      (0%nat, EInsert a'); (1%nat, ERemove (Uuid 1) (Some a'))] = true /\
+  handout_b [Uuid 1] [(0%nat, ERemove (Uuid 1) (Some a)); (1%nat, ERemove (Uuid 1) (Some a))] = false /\
+  handout_b [] [(0%nat, ERemove (Uuid 1) (Some a))] = false /\
+  cells_b [a] [(0%nat, ERemove (Uuid 1) (Some a)); (1%nat, ERemove (Uuid 1) None);
+               (0%nat, EInsert a'); (1%nat, EGet (Uuid 1) (Some a'))] = true /\
+  cells_b [a] [(0%nat, EGet (Uuid 1) (Some a')); (1%nat, ERemove (Uuid 1) (Some a))] = false /\
+  cells_b [a] [(1%nat, ERemove (Uuid 1) None)] = false /\
+  final_cells_b [a] [(0%nat, ERemove (Uuid 1) (Some a)); (0%nat, EInsert a')] [a'] = true /\
+  final_cells_b [a] [(0%nat, ERemove (Uuid 1) (Some a)); (0%nat, EInsert a')] [a] = false /\
+  final_cells_b [a] [(0%nat, ERemove (Uuid 1) (Some a))] [a] = false.
+Proof. vm_compute. repeat split. Qed.
+
+Example Tie_judge_drained_rejects :
+  let z := Iceberg (mkCommon (Uuid 2) 100 Sell 2 Gtc) 0 7 in
+  let a := Standard (mkCommon (Uuid 1) 100 Sell 1 Gtc) 5 in
+  drained_b 9 [z] 0 7 1 = true /\ drained_b 9 [] 0 0 0 = true /\ drained_b 0 [a] 5 0 1 = true /\
+  drained_b 9 [a] 5 0 1 = false /\            (* quantity remaining although an order still displays quantity *)
+  drained_b 9 [z] 0 7 2 = false /\ drained_b 9 [] 0 7 1 = false.   (* aggregates that do not describe what remains *)
+Proof. vm_compute. repeat split. Qed.
+
+Check Tie_judge_range.
+Check Tie_judge_range_sound.
+Check Tie_judge_range_sound_so_far.
+Check Tie_judge_handout.
+Check Tie_judge_handout_sound.
+Check Tie_judge_cells.
+Check Tie_judge_final_cells.
+Check Tie_judge_cells_sound.
+Check Tie_judge_drained.
+Check Tie_judge_drained_sound.
+Check Tie_judge_quiescent_agg_sound.
+
+Print Assumptions Tie_judge_range.
+Print Assumptions Tie_judge_range_named.
+Print Assumptions Tie_judge_range_sound.
+Print Assumptions Tie_judge_range_sound_so_far.
+Print Assumptions Tie_judge_handout.
+Print Assumptions Tie_judge_handout_sound.
+Print Assumptions Tie_judge_cells.
+Print Assumptions Tie_judge_final_cells.
+Print Assumptions Tie_judge_cells_subsumes_handout.
+Print Assumptions Tie_judge_cells_sound.
+Print Assumptions Tie_judge_cells_sound_listing.
+Print Assumptions Tie_judge_drained.
+Print Assumptions Tie_judge_drained_sound.
+Print Assumptions Tie_judge_quiescent_agg_sound.
